@@ -229,6 +229,7 @@ type epConfig struct {
 	levelQ, levelP int
 	pw2            int
 	ntt            bool
+	lite           bool // four messages instead of all (shapes whose interest is the digit count, not the message)
 }
 
 func (e epConfig) name() string {
@@ -260,6 +261,9 @@ func extProdScenario(e epConfig) engine.Scenario {
 
 		// fresh encryptions of every message, with their exact phases m+e
 		msgs := rlweMsgs(n)
+		if e.lite {
+			msgs = []rlweMsg{msgs[0], msgs[2], msgs[n+4], msgs[len(msgs)-1]}
+		}
 		cts := make([]*rlwe.Ciphertext, len(msgs))
 		phases := make([][]*big.Int, len(msgs))
 		for i, m := range msgs {
@@ -381,7 +385,7 @@ func extProdScenarios(tier string) []engine.Scenario {
 							pw2s = []int{0, 1, 7, 11, 16}
 						}
 						for _, pw2 := range pw2s {
-							scs = append(scs, extProdScenario(epConfig{sh, np, lq, lp, pw2, true}))
+							scs = append(scs, extProdScenario(epConfig{sh, np, lq, lp, pw2, true, false}))
 						}
 					}
 				}
@@ -391,31 +395,34 @@ func extProdScenarios(tier string) []engine.Scenario {
 	// 32-bit path near its admission limit (q < 2^29) with many digits: the lazy accumulator sums 2·#digits products
 	q29 := shape{"q29lo", 4, []uint64{nttPrime(4, 1<<29, true, 0)}, shapes(4)[0].p}
 	for _, pw2 := range []int{1, 2, 3, 4, 5} {
-		scs = append(scs, extProdScenario(epConfig{q29, 0, 0, -1, pw2, true}))
+		scs = append(scs, extProdScenario(epConfig{q29, 0, 0, -1, pw2, true, false}))
 	}
-	// lazy-accumulation margins: the P and Q accumulators are reduced every (overflow margin) digits; chains with
-	// many RNS digits and 61-bit primes on one side only put the digit count above / at / below each margin.
-	manyQ := func(bits, n int) []uint64 { return ref.PrimesNear(uint64(1)<<bits, 1<<6, n, true) }
-	p61 := ref.PrimesNear(uint64(1)<<61, 1<<6, 14, true)
-	for _, m := range []shape{
-		{"q10x30-p61", 4, manyQ(30, 10), p61[:2]}, // 5 digits with 2 P primes, 10 with 1: P margin (~4) exceeded, Q margin huge
-		{"q12x45-p61", 4, manyQ(45, 12), p61[:2]}, // 6 / 12 digits
-		{"q8x61-p61", 4, p61[2:10], p61[:2]},      // 4 / 8 digits of 61-bit primes: at / above both margins
-		{"q12x61-p61", 4, p61[2:14], p61[:2]},     // 6 / 12 digits
-	} {
-		for np := 1; np <= 2; np++ {
-			scs = append(scs, extProdScenario(epConfig{m, np, len(m.q) - 1, np - 1, 0, true}))
+	if tier != "thorough" {
+		// promoted from thorough: binary decomposition (pw2=1, the most digits a prime can have) at the top level of
+		// the "lo" shapes, and one ring of degree 32
+		sh := shapes(4)
+		for _, s := range []shape{sh[0], sh[2], sh[4]} {
+			for np := 0; np <= 1; np++ {
+				scs = append(scs, extProdScenario(epConfig{s, np, len(s.q) - 1, np - 1, 1, true, true}))
+			}
+		}
+		s5 := shapes(5)[4]
+		for np := 0; np <= 2; np++ {
+			scs = append(scs, extProdScenario(epConfig{s5, np, 2, np - 1, 7, true, true}))
 		}
 	}
+	scs = append(scs, marginScenarios(tier)...)
+	scs = append(scs, levelMismatchScenarios(tier)...)
+	scs = append(scs, historyScenarios(tier)...)
 	// coefficient-domain input ciphertexts (parameters with NTTFlag=false): a few configurations per code path
 	sh := shapes(4)
 	for _, e := range []epConfig{
-		{sh[0], 0, 0, -1, 7, false},  // 32bit
-		{sh[2], 0, 0, -1, 16, false}, // noP
-		{sh[4], 1, 2, 0, 0, false},   // singleP
-		{sh[2], 1, 0, 0, 16, false},  // singleP with digits
-		{sh[4], 2, 2, 1, 0, false},   // multipleP
-		{sh[2], 2, 0, 1, 0, false},   // multipleP, one Q prime
+		{sh[0], 0, 0, -1, 7, false, false},  // 32bit
+		{sh[2], 0, 0, -1, 16, false, false}, // noP
+		{sh[4], 1, 2, 0, 0, false, false},   // singleP
+		{sh[2], 1, 0, 0, 16, false, false},  // singleP with digits
+		{sh[4], 2, 2, 1, 0, false, false},   // multipleP
+		{sh[2], 2, 0, 1, 0, false, false},   // multipleP, one Q prime
 	} {
 		scs = append(scs, extProdScenario(e))
 	}
